@@ -249,6 +249,8 @@ func (n *Namespace) doConnect(socket *serverSocket) error {
 	socket.onConnect()
 
 	go func() {
+		close(socket.connectionSlot.started)
+		defer close(socket.connectionSlot.finished)
 		n.server.anyConnectionHandlers.forEach(func(handler *ServerAnyConnectionFunc) { (*handler)(n.name, socket) }, false)
 		n.connectionHandlers.forEach(func(handler *NamespaceConnectionFunc) { (*handler)(socket) }, false)
 	}()
